@@ -3,6 +3,7 @@ from scapy.packet import Raw
 from scapy.layers.l2 import Ether
 from scapy.layers.inet import IP, UDP
 from scapy.layers.inet6 import IPv6
+from tlexport import _verif
 
 
 class QUICOutputbuilder:
@@ -75,6 +76,7 @@ class QUICOutputbuilder:
                                 dport=self.server_port, sport=self.client_port) / Raw(bytes(packets))
 
                     self.out.append((packet, ts))
+                    _verif.emit("qout", dir="s" if isserver else "c", ts=repr(ts), len=len(packets), sport=self.server_port)
 
                     pn = frame.src_packet.packet_num
                     ts = frame.src_packet.ts
@@ -103,5 +105,6 @@ class QUICOutputbuilder:
                     dport=self.server_port, sport=self.client_port) / Raw(bytes(packets))
 
         self.out.append((packet, ts))
+        _verif.emit("qout", dir="s" if isserver else "c", ts=repr(ts), len=len(packets), sport=self.server_port)
 
         return self.out
